@@ -23,6 +23,9 @@ BUDGET_S = {"quick": 100, "thorough": 1200}
 def gen(rng, tier):
     n_cases = 240 if tier == "quick" else 3000
     for k in range(n_cases):
+        if k % 12 == 11:
+            yield FU.gen_raising_seq_case(rng)
+            continue
         case = FU.gen_form_case(rng, tier, heur_p=0.6, forms=("arc", "path", "seq", "seq"))
         if case["form"] == "seq" and "heur" in case:
             case["V"] = rng.choice([0, 1, 1, 2])
